@@ -660,6 +660,31 @@ pub fn unmanaged_scenarios(tier: Tier, with_close: bool) -> Vec<Scenario> {
             v.push(useq(&format!("close-histories/{}", name), "close() at every position of every history of unmanaged pool operations", if b.thorough { 2 } else { 1 }, USeqScenario { build, depth: if b.thorough { 8 } else { 6 }, max_tasks: 2, close: true, cancel: true, bfs: false }));
         }
     }
+    // thorough: every assignment of a script alphabet to three actors
+    if b.thorough {
+        let scripts: Vec<(&str, Vec<UOp>)> = vec![
+            ("GR", vec![g(), UOp::Release]),
+            ("GT", vec![g(), UOp::Take]),
+            ("TR", vec![UOp::TryGet, UOp::Release]),
+            ("A", vec![a()]),
+            ("TA", vec![UOp::TryAdd]),
+            ("RM", vec![UOp::Remove]),
+            ("TRM", vec![UOp::TryRemove]),
+            ("Z", vec![UOp::TimeoutGet0, UOp::Release]),
+        ];
+        let n_free = if with_close { 2 } else { 3 };
+        for combo in multisets(scripts.len(), n_free) {
+            for (bname, build) in [("new1", UBuild::New(1)), ("vec2", UBuild::FromVec(2))] {
+                let mut actors: Vec<Vec<UOp>> = combo.iter().map(|i| scripts[*i].1.clone()).collect();
+                let mut name = combo.iter().map(|i| scripts[*i].0).collect::<Vec<_>>().join("+");
+                if with_close {
+                    actors.push(vec![UOp::Close, UOp::Status]);
+                    name.push_str("+CLOSE");
+                }
+                v.push(uconc(&format!("gen/{}/{}", name, bname), "generated: every assignment of the script alphabet {get+return, get+take, try_get+return, add, try_add, remove, try_remove, timeout_get(0)+return} to the actors (modulo renaming)", 2, 1, build, actors));
+            }
+        }
+    }
     // breadth-first reachability to closure (unbounded history depth)
     let shapes: Vec<(&str, UBuild, usize)> = if b.thorough {
         vec![("new1", UBuild::New(1), 3), ("new2", UBuild::New(2), 3), ("vec2", UBuild::FromVec(2), 3), ("new3", UBuild::New(3), 3), ("vec3", UBuild::FromVec(3), 4), ("new0", UBuild::New(0), 3)]
